@@ -675,7 +675,18 @@ func c34ParseRaceLog(text string) []c34Race {
 func c34SourceLine(file string, n int) string {
 	b, err := os.ReadFile(file)
 	if err != nil {
-		return ""
+		// -trimpath builds report module-relative paths
+		const mod = "github.com/projectcalico/calico/"
+		if i := strings.Index(file, mod); i >= 0 {
+			repo := os.Getenv("VERIF_REPO")
+			if repo == "" {
+				repo = "/repo"
+			}
+			b, err = os.ReadFile(filepath.Join(repo, file[i+len(mod):]))
+		}
+		if err != nil {
+			return ""
+		}
 	}
 	ls := strings.Split(string(b), "\n")
 	if n < 1 || n > len(ls) {
